@@ -221,14 +221,26 @@ func (tp *TableParser) parseRow(row tableRowXML) ParsedTableRow {
 		parsed.Height = parseTwips(row.Properties.Height.Val)
 	}
 
-	// Parse cells
+	// Parse cells. A span is a number written in the file, and the column count of
+	// the table (which sizes slices and loops) is the sum of the spans of a row:
+	// the columns a row can claim beyond its own cells are limited.
+	spanned := 0
 	for _, cell := range row.Cells {
 		parsedCell := tp.parseCell(cell)
+		if parsedCell.ColSpan-1 > maxSpannedColumns-spanned {
+			parsedCell.ColSpan = 1 + maxSpannedColumns - spanned
+		}
+		spanned += parsedCell.ColSpan - 1
 		parsed.Cells = append(parsed.Cells, parsedCell)
 	}
 
 	return parsed
 }
+
+// maxSpannedColumns bounds the columns one row can add through column spans
+// (the widest sheets and tables the producing applications write have 16384
+// columns).
+const maxSpannedColumns = 16384
 
 // parseCell parses a table cell.
 func (tp *TableParser) parseCell(cell tableCellXML) ParsedTableCell {
